@@ -6,9 +6,6 @@ From Coq Require Import List NArith Bool Arith Lia.
 From Storage Require Import Base.Bytes Lang.Tokens Lang.BoolGrammar Lang.Listener Lang.BoolSurface.
 Import ListNotations.
 
-Scheme prim_mind := Induction for prim Sort Prop
-  with expr_mind := Induction for expr Sort Prop.
-Combined Scheme prim_expr_ind from prim_mind, expr_mind.
 
 (* ------------------------------------------------------------------------------------------ *)
 (* the parse tree the repaired parser builds for a chain: the tree of its first and-run, and the
@@ -549,3 +546,51 @@ Proof.
   intros. unfold sem, sem_dnf. destruct (sem_disjuncts e rho true) as [H Hne]. rewrite H.
   destruct (disjuncts e); [contradiction|]. reflexivity.
 Qed.
+
+(* ------------------------------------------------------------------------------------------ *)
+(* chains of one connective, redundant parentheses (on the surface semantics) *)
+Lemma sem_and_run : forall ps last k rho acc,
+  semE acc (and_run ps last k) rho = semE (acc && forallb (fun p => semP p rho) ps) (k last) rho.
+Proof.
+  induction ps as [|p r IH]; intros; simpl.
+  - rewrite andb_true_r. reflexivity.
+  - rewrite IH. rewrite andb_assoc. reflexivity.
+Qed.
+
+Lemma sem_and_chain : forall ps last rho,
+  sem (and_run ps last ELast) rho = forallb (fun p => semP p rho) (ps ++ [last]).
+Proof.
+  intros. unfold sem. rewrite sem_and_run. simpl. rewrite forallb_app. simpl. rewrite andb_true_r. reflexivity.
+Qed.
+
+Lemma sem_or_chain : forall ps last rho,
+  sem (or_run ps last) rho = existsb (fun p => semP p rho) (ps ++ [last]).
+Proof.
+  induction ps as [|p r IH]; intros; unfold sem in *; simpl.
+  - rewrite orb_false_r. reflexivity.
+  - rewrite IH. reflexivity.
+Qed.
+
+Scheme wrapP_mind := Induction for wrapP Sort Prop
+  with wrapE_mind := Induction for wrapE Sort Prop.
+Combined Scheme wrap_ind from wrapP_mind, wrapE_mind.
+
+Lemma wrap_sem : forall rho,
+  (forall p p', wrapP p p' -> semP p rho = semP p' rho) /\
+  (forall b e e', wrapE b e e' -> forall acc, (b = true -> acc = true) -> semE acc e rho = semE acc e' rho).
+Proof.
+  intros rho. apply wrap_ind; intros; simpl.
+  - reflexivity.
+  - apply H; auto.
+  - rewrite (H eq_refl). reflexivity.
+  - rewrite (H eq_refl). rewrite sem_and_run. simpl. rewrite sem_and_run. simpl. reflexivity.
+  - rewrite H. reflexivity.
+  - rewrite (H true); auto.
+  - rewrite H. reflexivity.
+  - apply H. discriminate.
+  - rewrite H. reflexivity.
+  - rewrite (H true); auto.
+Qed.
+
+Theorem wrap_preserves_sem : forall e e' rho, wrapE true e e' -> sem e rho = sem e' rho.
+Proof. intros. unfold sem. apply (proj2 (wrap_sem rho) true e e' H). auto. Qed.
